@@ -17,6 +17,13 @@ the closed edge segments, the strict interior their difference.  One query per p
 The triangulation oracle itself is cross-checked on every polygon against an exact
 crossing-number computation with rational arithmetic on a grid of points (harness error on
 disagreement).  Both polygon and point symbolic is declined (DESIGN: unknown after 90 s).
+
+Float arithmetic in the predicates (big/fp obligations): the exact model is blind to IEEE rounding
+(a collinearity test through a float scale factor is exact over Real and wrong in doubles from
+coordinates of about 11..15 on).  26 scaled-up concrete polygons (edges 15..40) are therefore
+checked with integers as bit-vectors and every `/`, float product and float() in FP(11,53), the
+point bounded to the bounding box +-2; if z3 gives up the real predicates are run on every integer
+point of the box.  Grid obligations whose translation contains float operations are INCONCLUSIVE.
 """
 import itertools
 from fractions import Fraction
@@ -38,7 +45,14 @@ ASSUMPTIONS = [
     "polygons are concrete: all simple polygons (every vertex order / start / orientation, 180-degree vertices allowed) "
     "with 3, 4 vertices on the 3x3 grid (quick); plus 5 vertices on 3x3 and 3, 4 vertices on the 4x4 grid (thorough)",
     "the query point is an unbounded symbolic pair of integers (thorough: also of reals on the 3x3 polygons)",
-    "exact arithmetic: float rounding of coordinates is outside the claim (the statement speaks of integer coordinates)",
+    "grid obligations: exact Int/Real arithmetic (the code as it stands uses only + - * and comparisons on the integer "
+    "coordinates, which is exact in python); if a translated predicate contains int / int or float() the exact model is "
+    "not faithful and the obligation is reported INCONCLUSIVE",
+    "big/fp obligations: 26 concrete polygons with edges of length 15..40, the integer point bounded to the bounding box "
+    "+-2, integers as 16-bit bit-vectors, `/`, float products and float() with IEEE double semantics (FP(11,53)); when "
+    "the solver answers unknown the real predicates are run on every integer point of the box (stated fallback)",
+    "a translator-validation disagreement at a point where the real predicates contradict exact geometry is reported as "
+    "a violation (replayed), not as a harness error",
     "the sign of a non-zero winding number (orientation) is not part of the statement and not checked",
     "polygon and point both symbolic, and the quantifier's 'random larger polygons', are declined (nonlinear; measured unknown)",
 ]
@@ -191,18 +205,22 @@ def as_bool(v):
     return v if A.is_sym(v) else z3.BoolVal(bool(v))
 
 
-def check_polygon(sess, vs, p, num, selfcheck):
+def check_polygon(sess, vs, p, num, selfcheck, box=None):
+    """box = (xlo, xhi, ylo, yhi): the 'big' obligations -- bit-vector integers, `/` and float products in
+    FP(11,53), the point bounded to the box; else the exact Int/Real model with an unbounded point"""
     n = len(vs)
     tris = triangulate(vs)
     if selfcheck:
         g = max(max(q) for q in vs) + 1
-        for q in itertools.product(range(-1, g + 1), repeat=2):
+        for q in itertools.product(range(-1, g + 1), repeat=2) if box is None else \
+                itertools.product(range(box[0], box[1] + 1, 3), range(box[2], box[3] + 1, 3)):
             if classify(q, vs, tris) != classify_crossing(q, vs):
                 raise A.TranslationMismatch("harness oracle self-check: polygon %r point %r: triangulation says %s, "
                                             "crossing number says %s" % (vs, q, classify(q, vs, tris), classify_crossing(q, vs)))
         sess.res["validated"] += 1
     tvs = tuple(tuple(q) for q in vs)
-    one = sess.interp(num=num)      # one interpreter per polygon: pure sub-calls are memoised across the predicates
+    # one interpreter per polygon: pure sub-calls are memoised across the predicates
+    one = sess.interp(num=num) if box is None else sess.interp(num="bv", bvw=BVW, int_truediv_fp=True)
 
     def tr(fn, *args, **kw):
         res = one.call(fn, [p, tvs] + list(args), kw)
@@ -240,7 +258,32 @@ def check_polygon(sess, vs, p, num, selfcheck):
         r = replay(v, None)
         return r[2]
 
-    sess.prove(KEY % "polygon", claim, defs=defs, side=side, wrong=wrong, vals=vals, detail=detail, what="polygon %r" % (vs,))
+    if box is None:
+        if one.float_ops:
+            # int / int or float() in the predicates: python computes IEEE doubles there, the exact model is
+            # not faithful (a collinearity test by a float scale factor is exact in Real arithmetic and wrong
+            # in doubles) -> this obligation cannot vouch for the real code; the 'big' obligations decide
+            sess.res["paths"] += 1
+            sess.inconclusive("the predicates use float arithmetic (%d int/int divisions or float() calls): the exact "
+                              "Int/Real model is not faithful for polygon %r; see the big/fp obligations" % (one.float_ops, vs))
+            return res, interps
+        sess.prove(KEY % "polygon", claim, defs=defs, side=side, wrong=wrong, vals=vals, detail=detail, what="polygon %r" % (vs,))
+        return res, interps
+    assume = [p[0] >= box[0], p[0] <= box[1], p[1] >= box[2], p[1] <= box[3]]
+
+    def exhaustive():
+        """stated fallback when the solver gives up on the FP query: run the REAL predicates on every
+        integer point of the box (decisive for this bounded box)"""
+        for q in itertools.product(range(box[0], box[1] + 1), range(box[2], box[3] + 1)):
+            v = dict(vs=[list(x) for x in vs], p=list(q))
+            r = replay(v, None)
+            if r[0] == "fail":
+                return ("sat", v, r[2])
+        return ("unsat", "solver unknown on polygon %r: decided by running the real predicates on all %d integer points of the box"
+                % (vs, (box[1] - box[0] + 1) * (box[3] - box[2] + 1)))
+
+    sess.prove(KEY % "polygon", claim, assume=assume, defs=defs, side=side, wrong=wrong, vals=vals, detail=detail,
+               what="polygon %r, point in box %r" % (vs, box), on_unknown=exhaustive)
     return res, interps
 
 
@@ -265,8 +308,71 @@ def validate(sess, num, polys, p):
             I = sess.interp(num=num)
             res = I.call(fn, [p, list(vs)] + list(args))
             sess.absorb(I)
-            sess.validate("%s%r on %r" % (name, args, vs), [A.Path([], res, I)], list(p), pts,
-                          lambda x, y: fn((x, y), vs, *args))
+            validate_points(sess, "%s%r on %r" % (name, args, vs), res, I, p, pts, fn, vs, args)
+
+
+def validate_points(sess, label, res, I, p, pts, fn, vs, args):
+    """translator validation point by point.  If the translated term and the real function disagree at a
+    point where the REAL predicates contradict exact geometry, it is the real code that is wrong there
+    (e.g. float arithmetic the exact model does not see): reported as a violation candidate and replayed;
+    only a disagreement with a geometrically correct real result is a harness error."""
+    for pt in pts:
+        try:
+            sess.validate(label, [A.Path([], res, I)], list(p), [pt], lambda x, y: fn((x, y), vs, *args))
+        except A.TranslationMismatch:
+            v = dict(vs=[list(q) for q in vs], p=list(pt))
+            r = replay(A.jsonable(v), None)
+            if r[0] != "fail":
+                raise
+            sess.res["paths"] += 1
+            sess.fail(r[1], v, r[2] + " (found by translator validation)")
+
+
+BVW = 16      # coordinates <= 84, dot and cross products <= 2 * 86 * 80 < 2^15: no overflow (checked side conditions)
+
+
+def big_polygons():
+    """concrete polygons with edges of length 15..40 (squares, triangles, diamonds, one concave), both orientations"""
+    out = []
+    for L in (15, 17, 23, 31, 40):
+        out.append(((0, 0), (L, 0), (L, L), (0, L)))
+    for a, b in (((15, 0), (7, 19)), ((30, 0), (11, 25)), ((21, 0), (21, 35)), ((33, 9), (4, 27))):
+        out.append(((0, 0), a, b))
+    for L in (15, 20, 33):
+        out.append(((L, 0), (2 * L, L), (L, 2 * L), (0, L)))
+    out.append(((0, 0), (30, 0), (30, 30), (15, 11), (0, 30)))
+    out += [tuple(reversed(vs)) for vs in out]
+    assert all(simple(vs) for vs in out)
+    return out
+
+
+def ob_big(sess, params):
+    """scaled-up polygons, bounded symbolic integer point, IEEE semantics for `/`, float products and float()"""
+    polys = big_polygons()
+    k, K = params["shard"], params["shards"]
+    mine = [vs for i, vs in enumerate(polys) if i % K == k]
+    p = (z3.BitVec("px", BVW), z3.BitVec("py", BVW))
+    r = A.rng(sess.params, 441)
+    done = 0
+    for vs in mine:
+        if sess.over_budget():
+            sess.res["stopped"] = "budget"
+            sess.inconclusive("budget exhausted after %d of %d polygons" % (done, len(mine)))
+            return
+        xs, ys = [q[0] for q in vs], [q[1] for q in vs]
+        box = (min(xs) - 2, max(xs) + 2, min(ys) - 2, max(ys) + 2)
+        res, interps = check_polygon(sess, vs, p, "bv", selfcheck=True, box=box)
+        # translator validation of the bit-vector / FP terms on box points (edge points included)
+        n = len(vs)
+        pts = [vs[0], ((vs[0][0] + vs[1][0]) // 2, (vs[0][1] + vs[1][1]) // 2)] + \
+              [(r.randrange(box[0], box[1] + 1), r.randrange(box[2], box[3] + 1)) for _ in range(6)] + \
+              [(vs[i][0] + (vs[(i + 1) % n][0] - vs[i][0]) * t // 5, vs[i][1] + (vs[(i + 1) % n][1] - vs[i][1]) * t // 5)
+               for i in range(n) for t in (1, 2, 4)]
+        for name, fn, args in (("wind", V.wind, ()), ("inside_T", V.inside, (True,)), ("sideOnly", V.sideOnly, ()),
+                               ("outside_F", V.outside, (False,))):
+            validate_points(sess, "%s on %r (bv/fp)" % (name, vs), res[name], interps[0], p, pts, fn, vs, args)
+        done += 1
+    sess.res["extra"]["polygons"] = done
 
 
 def ob_polys(sess, params):
@@ -296,6 +402,14 @@ def obligations(tier):
                 ("g4/n3/int", 4, 3, "int", 10), ("g4/n4/int", 4, 4, "int", 56),
                 ("g3/n3/real", 3, 3, "real", 2), ("g3/n4/real", 3, 4, "real", 4), ("g3/n5/real", 3, 5, "real", 8)]
     obs = []
+    KB = 8 if tier == "quick" else 12
+    for k in range(KB):
+        obs.append(Ob("big/fp/s%02dof%02d" % (k, KB), A.run_obligation(ob_big, "tactic:simplify>fpa2bv>qfbv", 90000), kind="e2",
+                      params=dict(shard=k, shards=KB, xcheck=(tier == "thorough"), xcheck_max=2), replay=replay, budget=3000,
+                      bounds=dict(polygons="26 concrete polygons with edges of length 15..40 (squares, triangles, diamonds, one concave; both orientations)",
+                                  point="symbolic %d-bit integer pair bounded to the bounding box +-2" % BVW,
+                                  arithmetic="ints as bit-vectors; int / int, float products and float() in FP(11,53)",
+                                  fallback="solver unknown -> real predicates run on every integer point of the box")))
     for name, grid, n, num, K in plan:
         for k in range(K):
             obs.append(Ob("%s/s%02dof%02d" % (name, k, K), run, params=dict(grid=grid, n=n, num=num, shard=k, shards=K, xcheck=(tier == "thorough"), xcheck_max=2),
